@@ -459,7 +459,12 @@ class _ILoc:
         self.df = df
 
     def __getitem__(self, key):
+        if not isinstance(key, tuple):
+            key = (key, slice(None))
         rows, cols = key
+        if isinstance(rows, slice):
+            f = lambda v: (int(v) if isinstance(v, (Sym, Arr)) else v)
+            rows = slice(f(rows.start), f(rows.stop), f(rows.step))
         names = [self.df.columns[c] for c in (cols if isinstance(cols, (list, tuple)) else range(*cols.indices(len(self.df.columns))))]
         idx = range(*rows.indices(len(self.df))) if isinstance(rows, slice) else rows
         return DataFrame({n: [self.df.data[n][i] for i in idx] for n in names})
